@@ -6,6 +6,7 @@ import (
 	"fmt"
 	"net/url"
 	"sort"
+	"strconv"
 	"strings"
 )
 
@@ -356,5 +357,5 @@ func (d Def) Text() string {
 }
 
 func fmtFloat(f float64) string {
-	return strings.TrimRight(strings.TrimRight(fmt.Sprintf("%.4f", f), "0"), ".")
+	return strconv.FormatFloat(f, 'f', -1, 64) // every digit: the command must say what the model holds
 }
